@@ -151,7 +151,7 @@ func (fx *FnExec) extern(st *State, in *ssa.Call, fn *ssa.Function, args []Val, 
 			fx.frameCheck(st, in, ar, nil)
 		}
 		na := eng.fresh(st, "sorted", "(Array Int Str)")
-		st.assume(app("sortedperm", sel(h, ar), na, of, "(+ "+of+" "+ln+")"))
+		st.assume(app("sortedperm", sel(h, ar), na, of, ln))
 		eng.heapSet(st, comp, store(h, ar, na))
 		k(st, nil)
 	case "github.com/deckarep/golang-set.NewSet":
